@@ -19,12 +19,18 @@ CAPS = {"quick": {"query_s": 20, "max_paths": 40000, "witness_every": 2},
         "thorough": {"query_s": 60, "max_paths": 400000, "witness_every": 5}}
 
 
-def _mkwnd(kind, w, size):
+def _mkwnd(kind, w, size, keep=None):
   if kind == "none": return None
-  if kind == "list": return list(w)
+  if kind == "list":
+    l = list(w)
+    if keep is not None: keep.append(l)
+    return l
   if kind == "tuple": return tuple(w)
   if kind == "gen": return (v for v in w)
-  if kind == "callable": return lambda n: list(w[:n])
+  if kind == "callable":
+    l = list(w[:size])                      # a window function may hand out the very same list every time (memoised)
+    if keep is not None: keep.append(l)
+    return lambda n: l
   raise ValueError(kind)
 
 
@@ -42,10 +48,13 @@ def h_ola(ctx, cfg):
   if detect and m == 0: ctx.exclude("size cannot be detected from an empty block stream")
   kw = {"hop": hop, "normalize": normalize}
   if not detect: kw["size"] = size
-  if kind != "none": kw["wnd"] = _mkwnd(kind, w, size)
+  kept = []
+  if kind != "none": kw["wnd"] = _mkwnd(kind, w, size, kept)
   blks = (list(b) for b in B) if cfg.get("lazy", True) else [tuple(b) for b in B]
   if cfg.get("hopdefault") and hop == size: del kw["hop"]
   out = list(overlap_add.list(blks, **kw))
+  for l in kept:
+    ctx.prove(len(l) == size and And(*[ctx.eq(a, b) for a, b in zip(l, w)]), "the-caller's-window-list-is-not-modified")
   want_len = m * hop + size - hop
   ctx.prove(len(out) == want_len, "output-length-is-m*h+size-h", "len=%d want=%d (size=%d hop=%d m=%d)" % (len(out), want_len, size, hop, m))
   # gain
@@ -167,6 +176,13 @@ def h_stft(ctx, cfg):
   elif style == "strategy":
     wrapped = stft.base(func, size=size, hop=hop, wnd=wnd, ola=spy_ola, ola_normalize=False, **common)
     res = wrapped(list(x))
+  elif style == "ola_override":
+    # ola_-prefixed options override what the overlap-add inherits from the analysis (size, hop)
+    wrapped = stft(func, size=size, hop=hop, wnd=wnd, ola=spy_ola, ola_normalize=False, ola_hop=size, ola_wnd=None, **common)
+    list(wrapped(list(x)))
+    ctx.prove(len(ola_calls) == 1 and ola_calls[0] == {"size": size, "hop": size, "normalize": False, "wnd": None},
+              "ola_-options-override-the-inherited-size-and-hop", "ola got %r" % (ola_calls,))
+    return
   out = list(res)
   ctx.prove(len(ola_calls) == 1, "ola-called-once")
   if ola_calls:
@@ -240,4 +256,6 @@ def tasks(tier, seed):
       T.append(("h_stft", {"size": size, "hop": hop, "L": size + 3, "style": style,
                            "wkind": {"direct": "list", "decorator": "callable", "partial": "list", "strategy": "gen"}[style]}))
   T.append(("h_stft_args", {}))
+  for size, hop in ((4, 2), (3, 1)):
+    T.append(("h_stft", {"size": size, "hop": hop, "L": size + 2, "style": "ola_override", "wkind": "list"}))
   return T
